@@ -230,6 +230,10 @@ for (h, nid, k) in ((4, 0, 0), (5, 0, 0), (6, 1, 0), (4, 2, 0), (4, 3, 0), (4, 3
     UC("c05-sub-ascii-needle%d-h%d-k%d" % (nid, h, k), "exact", "sub_ascii_concrete_needle::<%d,%d,%d>()" % (h, nid, k), {"C05": "quick", "C02": "quick", "C03": "quick"}, "bounded", EXACT_FNS[1:],
        "substring_match_ascii with the concrete needle %s on every ASCII haystack of %d bytes: decision, leftmost best occurrence, contiguous witness, score, None appends nothing" % (CN[nid], h),
        unwind=max(h + 3, 7), bound="ASCII haystack %d (all bytes), concrete needle %s, %s" % (h, CN[nid], CFGNAME[k]), cost=3, core=(nid == 0 and h == 4))
+for (h, nid) in ((3, 2), (3, 3)):
+    UC("c02-sub-ascii-needle%d-h%d" % (nid, h), "exact", "sub_ascii_concrete_needle::<%d,%d,0>()" % (h, nid), {"C02": "quick", "C05": "quick", "C03": "quick"}, "bounded", EXACT_FNS[1:],
+       "substring_match_ascii with the concrete needle %s on every ASCII haystack of %d bytes: decision, leftmost best occurrence, contiguous valid witness, score, None appends nothing" % (CN[nid], h),
+       unwind=7, bound="ASCII haystack %d (all bytes), concrete needle %s, DEFAULT" % (h, CN[nid]), cost=3, core=True)
 UC("c05-exact-canary", "exact", "exact_canary()", {"C05": "quick"}, "bounded", [], "canary", unwind=8, expect="fail", no_cover=True)
 
 # public entry points, ASCII x ASCII
@@ -405,8 +409,11 @@ for (k1, n1, k2, n2) in ((0, 0, 1, 0), (0, 0, 1, 1), (1, 1, 0, 0), (2, 0, 3, 0),
        "Pattern::score of %s == conjunction with negation, sum of positive scores; the caller's matcher may carry any earlier case/normalisation setting" % what,
        unwind=8, bound=bound, cost=6, timeout=1500, stubs=OPT_STUB if fz else [])
     UC("c15-pattern-indices-" + tag, "pattern", "pattern_indices_two_atoms::<%s>()" % shape, {"C15": "quick"}, "bounded", PAT_FNS[1:2] + PAT_FNS[3:],
-       "Pattern::indices of %s: same decision and score as the conjunction, positive atoms' indices appended in atom order, negated atoms append nothing" % what,
-       unwind=8, bound=bound, cost=7, timeout=1500, stubs=OPT_STUB if fz else [])
+       "Pattern::indices of %s: same decision and score as Pattern::score, positive atoms' indices appended in atom order (valid witnesses), negated atoms append nothing" % what,
+       unwind=8, bound=bound, cost=7, timeout=1500, stubs=OPT_STUB if fz else [], core=(tag == "substring-not-exact"))
+    UC("c15-pattern-indices-h2-" + tag, "pattern", "pattern_indices_two_atoms::<%s>()" % ("2" + shape[1:]), {"C15": "quick"}, "bounded", PAT_FNS[1:2] + PAT_FNS[3:],
+       "Pattern::indices of %s on a 2-character haystack: same decision and score as Pattern::score, indices in atom order, negated atoms append nothing" % what,
+       unwind=8, bound=bound.replace("ASCII haystack 3", "ASCII haystack 2"), cost=5, timeout=1500, stubs=OPT_STUB if fz else [])
 UC("c15-pattern-empty", "pattern", "pattern_empty()", {"C15": "quick"}, "bounded", PAT_FNS[2:], "an empty pattern matches everything with score 0 and appends nothing", unwind=8, bound="ASCII haystack 3")
 UC("c15-multipattern-two-columns", "multipattern", "multipattern_two_columns()", {"C15": "thorough"}, "bounded", ["nucleo::pattern::MultiPattern::score", "nucleo::pattern::MultiPattern::reparse", "pattern::Pattern::parse"],
    "MultiPattern [\"a\", \"!b\"] over two columns == conjunction of the column patterns; matches iff column 0 contains a/A and column 1 contains no b/B", unwind=12,
